@@ -1,0 +1,408 @@
+//! Wrappers over the crate-private socket pattern components. Pure forwarding.
+
+use std::collections::VecDeque;
+use std::sync::Arc;
+use std::time::Duration;
+
+use fibre::TrySendError;
+use fibre::mpsc::{BoundedAsyncReceiver, bounded_async};
+
+use crate::error::ZmqError;
+use crate::message::{Blob, FrameBatch, Msg};
+use crate::runtime::mailbox;
+use crate::runtime::{Command, MailboxReceiver};
+use crate::sessionx::ScaConnectionIface;
+use crate::socket::connection_iface::ISocketConnection;
+use crate::socket::patterns::framing::FramingLatch;
+use crate::socket::patterns::ready_pipe_queue::{PipeMessageSender, ReadyPipeQueue, ReadyPipeSender};
+use crate::socket::patterns::{
+  AddressedIngressEngine, AnonymousIngressEngine, LoadBalancer, OutgoingMessageOrchestrator, RouterMap,
+  SubscriptionTrie, WritePipeCoordinator,
+};
+
+// ---------------------------------------------------------------------------------------------
+// ReadyPipeQueue
+// ---------------------------------------------------------------------------------------------
+
+pub struct Rpq<T: Send + 'static>(ReadyPipeQueue<T>);
+pub struct RpqSender<T: Send + 'static>(ReadyPipeSender<T>);
+
+impl<T: Send + 'static> Rpq<T> {
+  pub fn new(ready_capacity: usize) -> Self {
+    Self(ReadyPipeQueue::new(ready_capacity))
+  }
+  pub fn register(&self, pipe_id: usize, capacity: usize, drain_delta: usize) -> RpqSender<T> {
+    RpqSender(self.0.register_pipe(pipe_id, capacity, drain_delta))
+  }
+  pub fn deregister(&self, pipe_id: usize) {
+    self.0.deregister_pipe(pipe_id)
+  }
+  pub async fn pop(&self) -> Result<(usize, T), ZmqError> {
+    self.0.pop().await
+  }
+  pub fn try_pop(&self) -> Option<(usize, T)> {
+    self.0.try_pop()
+  }
+  pub fn close(&self) {
+    self.0.close()
+  }
+  /// Number of tokens currently on the ready list.
+  pub fn ready_len(&self) -> usize {
+    self.0.ready_rx.len()
+  }
+  /// (queued_count, reserved_count, channel len) of a registered pipe.
+  pub fn slot_counts(&self, pipe_id: usize) -> Option<(usize, usize, usize)> {
+    use std::sync::atomic::Ordering;
+    self.0.pipes.read().get(&pipe_id).map(|s| {
+      (
+        s.queued_count.load(Ordering::SeqCst),
+        s.reserved_count.load(Ordering::SeqCst),
+        s.rx.len(),
+      )
+    })
+  }
+}
+
+impl<T: Send + 'static> RpqSender<T> {
+  pub async fn send(&self, item: T) -> Result<(), ZmqError> {
+    self.0.send(item).await
+  }
+  /// `Err(Some(item))` = full, `Err(None)` = closed.
+  pub fn try_send(&self, item: T) -> Result<(), Option<T>> {
+    match self.0.try_send(item) {
+      Ok(()) => Ok(()),
+      Err(TrySendError::Full(i)) => Err(Some(i)),
+      Err(_) => Err(None),
+    }
+  }
+  pub fn try_send_batch(&self, items: &mut VecDeque<T>) -> usize {
+    self.0.try_send_batch(items, |_| 1)
+  }
+  pub fn queued_count(&self) -> usize {
+    self.0.queued_count()
+  }
+  pub fn reserved_count(&self) -> usize {
+    self.0.reserved_count()
+  }
+  pub fn len(&self) -> usize {
+    self.0.len()
+  }
+}
+
+// ---------------------------------------------------------------------------------------------
+// Ingress engines + PipeMessageSender
+// ---------------------------------------------------------------------------------------------
+
+pub struct PipeSender(PipeMessageSender);
+
+impl PipeSender {
+  pub async fn send(&self, batch: FrameBatch) -> Result<(), ZmqError> {
+    self.0.send(batch).await
+  }
+  /// `Err(Some(batch))` = full, `Err(None)` = closed.
+  pub fn try_send_sync(&self, batch: FrameBatch) -> Result<(), Option<FrameBatch>> {
+    match self.0.try_send_sync(batch) {
+      Ok(()) => Ok(()),
+      Err(TrySendError::Full(b)) => Err(Some(b)),
+      Err(_) => Err(None),
+    }
+  }
+  pub fn try_send_batch(&self, items: &mut VecDeque<FrameBatch>) -> usize {
+    self.0.try_send_batch(items)
+  }
+  pub fn queued_count(&self) -> usize {
+    self.0.queued_count()
+  }
+  pub fn reserved_count(&self) -> usize {
+    self.0.reserved_count()
+  }
+  pub fn len(&self) -> usize {
+    self.0.len()
+  }
+}
+
+pub struct AnonIngress(AnonymousIngressEngine);
+
+impl AnonIngress {
+  pub fn new(activation_capacity: usize) -> Self {
+    Self(AnonymousIngressEngine::new(activation_capacity))
+  }
+  pub fn register(&self, pipe_id: usize, capacity: usize, drain_delta: usize) -> PipeSender {
+    PipeSender(self.0.register_pipe(pipe_id, capacity, drain_delta))
+  }
+  pub fn register_filtered(&self, pipe_id: usize, capacity: usize, trie: &Trie, drain_delta: usize) -> PipeSender {
+    PipeSender(self.0.register_pipe_filtered(pipe_id, capacity, trie.0.clone(), drain_delta))
+  }
+  pub fn deregister(&self, pipe_id: usize) {
+    self.0.deregister_pipe(pipe_id)
+  }
+  pub fn close(&self) {
+    self.0.close()
+  }
+  pub async fn recv(&self, rcvtimeo: Option<Duration>) -> Result<Msg, ZmqError> {
+    self.0.recv(rcvtimeo).await
+  }
+  pub async fn recv_multipart(&self, rcvtimeo: Option<Duration>) -> Result<FrameBatch, ZmqError> {
+    self.0.recv_multipart(rcvtimeo).await
+  }
+}
+
+pub struct AddrIngress(AddressedIngressEngine);
+
+impl AddrIngress {
+  pub fn new(activation_capacity: usize) -> Self {
+    Self(AddressedIngressEngine::new(activation_capacity))
+  }
+  pub fn register(&self, pipe_id: usize, capacity: usize, drain_delta: usize) -> PipeSender {
+    PipeSender(self.0.register_pipe(pipe_id, capacity, drain_delta))
+  }
+  pub fn deregister(&self, pipe_id: usize) {
+    self.0.deregister_pipe(pipe_id)
+  }
+  pub fn close(&self) {
+    self.0.close()
+  }
+  pub async fn pop(&self) -> Result<(usize, FrameBatch), ZmqError> {
+    self.0.pop().await
+  }
+  pub async fn recv_logical_message(&self, rcvtimeo: Option<Duration>) -> Result<(usize, FrameBatch), ZmqError> {
+    self.0.recv_logical_message(rcvtimeo).await
+  }
+}
+
+// ---------------------------------------------------------------------------------------------
+// Subscription trie
+// ---------------------------------------------------------------------------------------------
+
+#[derive(Clone)]
+pub struct Trie(Arc<SubscriptionTrie>);
+
+impl Trie {
+  pub fn new() -> Self {
+    Self(Arc::new(SubscriptionTrie::new()))
+  }
+  pub fn subscribe(&self, topic: &[u8]) {
+    self.0.subscribe(topic)
+  }
+  pub fn unsubscribe(&self, topic: &[u8]) -> bool {
+    self.0.unsubscribe(topic)
+  }
+  pub fn matches(&self, topic: &[u8]) -> bool {
+    self.0.matches(topic)
+  }
+  pub fn get_all_topics(&self) -> Vec<Vec<u8>> {
+    self.0.get_all_topics()
+  }
+}
+
+// ---------------------------------------------------------------------------------------------
+// Connections, load balancer, orchestrator
+// ---------------------------------------------------------------------------------------------
+
+/// A real `ScaConnectionIface` (the object PUSH/DEALER/PUB send through) over a real bounded
+/// fibre pipe. The receiver end is what a session actor would drain.
+#[derive(Clone)]
+pub struct Conn(Arc<dyn ISocketConnection>);
+
+pub struct ConnEnds {
+  pub conn: Conn,
+  pub pipe_rx: BoundedAsyncReceiver<FrameBatch>,
+  pub stop_rx: MailboxReceiver,
+}
+
+pub fn sca_conn(capacity: usize, sndtimeo: Option<Duration>, id: usize) -> ConnEnds {
+  let (stop_tx, stop_rx) = mailbox(4);
+  let (tx, rx) = bounded_async::<FrameBatch>(capacity.max(1));
+  let iface = ScaConnectionIface::new(stop_tx, id, tx, id, sndtimeo);
+  ConnEnds { conn: Conn(Arc::new(iface)), pipe_rx: rx, stop_rx }
+}
+
+pub fn is_stop(cmd: &Command) -> bool {
+  matches!(cmd, Command::Stop)
+}
+
+impl Conn {
+  pub async fn send_message(&self, msg: Msg) -> Result<(), ZmqError> {
+    self.0.send_message(msg).await
+  }
+  pub async fn send_multipart(&self, msgs: FrameBatch) -> Result<(), ZmqError> {
+    self.0.send_multipart(msgs).await
+  }
+  pub async fn send_multipart_owned(&self, msgs: FrameBatch) -> Result<(), (FrameBatch, ZmqError)> {
+    self.0.send_multipart_owned(msgs).await
+  }
+  pub fn try_send_multipart_owned_sync(&self, msgs: FrameBatch) -> Result<(), (FrameBatch, ZmqError)> {
+    self.0.try_send_multipart_owned_sync(msgs)
+  }
+}
+
+pub struct Balancer(LoadBalancer);
+
+impl Balancer {
+  pub fn new() -> Self {
+    Self(LoadBalancer::new())
+  }
+  pub fn add(&self, uri: &str, conn: &Conn) {
+    self.0.add_connection(uri.to_string(), conn.0.clone())
+  }
+  pub fn remove(&self, uri: &str) {
+    self.0.remove_connection(uri)
+  }
+  pub fn next(&self) -> Option<String> {
+    self.0.get_next_connection().map(|p| p.uri.clone())
+  }
+  pub async fn wait_for_connection(&self) -> Result<(), ZmqError> {
+    self.0.wait_for_connection().await
+  }
+  pub fn deactivate(&self) {
+    self.0.deactivate()
+  }
+  pub fn count(&self) -> usize {
+    self.0.connection_count()
+  }
+}
+
+pub struct Orchestrator(OutgoingMessageOrchestrator);
+
+impl Orchestrator {
+  pub fn new() -> Self {
+    Self(OutgoingMessageOrchestrator::new())
+  }
+  pub fn add(&self, uri: &str, conn: &Conn) {
+    self.0.add_connection(uri.to_string(), conn.0.clone())
+  }
+  pub fn remove(&self, uri: &str) {
+    self.0.remove_connection(uri)
+  }
+  pub fn deactivate(&self) {
+    self.0.deactivate()
+  }
+  pub fn has_connections(&self) -> bool {
+    self.0.has_connections()
+  }
+  pub async fn wait_for_connection(&self) -> Result<(), ZmqError> {
+    self.0.wait_for_connection().await
+  }
+  pub fn try_route_sync(&self, msgs: FrameBatch) -> Result<(), (FrameBatch, ZmqError)> {
+    self.0.try_route_sync(msgs)
+  }
+  pub async fn route_message(&self, msgs: FrameBatch, wait_for_peer: bool) -> Result<(), (FrameBatch, ZmqError)> {
+    self.0.route_message(msgs, wait_for_peer).await
+  }
+}
+
+// ---------------------------------------------------------------------------------------------
+// Router map, send strategies, framing
+// ---------------------------------------------------------------------------------------------
+
+pub struct RouterMapH(RouterMap);
+
+#[derive(Debug, Clone, PartialEq, Eq)]
+pub struct RouteInfo {
+  pub uri: String,
+  /// Debug name of the send strategy ("ReqPeerStrategy", "DealerPeerStrategy", ...).
+  pub strategy: String,
+}
+
+impl RouterMapH {
+  pub fn new() -> Self {
+    Self(RouterMap::new())
+  }
+  pub async fn add_peer(&self, identity: &[u8], pipe_read_id: usize, uri: &str) {
+    self.0.add_peer(Blob::from(identity.to_vec()), pipe_read_id, uri.to_string()).await
+  }
+  pub async fn update_peer_identity(&self, pipe_read_id: usize, identity: &[u8], uri: &str, peer_type: Option<&str>) {
+    self
+      .0
+      .update_peer_identity(pipe_read_id, Blob::from(identity.to_vec()), uri, peer_type)
+      .await
+  }
+  pub async fn remove_by_pipe(&self, pipe_read_id: usize) {
+    self.0.remove_peer_by_read_pipe(pipe_read_id).await
+  }
+  pub async fn remove_by_identity(&self, identity: &[u8]) {
+    self.0.remove_peer_by_identity(&Blob::from(identity.to_vec())).await
+  }
+  pub async fn identity_of_pipe(&self, pipe_read_id: usize) -> Option<Vec<u8>> {
+    self.0.get_identity_by_read_pipe(pipe_read_id).await.map(|b| b.as_ref().to_vec())
+  }
+  pub async fn lookup(&self, identity: &[u8]) -> Option<RouteInfo> {
+    self
+      .0
+      .get_peer_info_for_identity(&Blob::from(identity.to_vec()))
+      .await
+      .map(|p| RouteInfo { uri: p.uri, strategy: format!("{:?}", p.strategy) })
+  }
+  /// Runs the send strategy registered for `identity` on (identity frame, payload).
+  pub async fn prepare(&self, identity: &[u8], payload: FrameBatch, latch: &FramingLatchH) -> Option<FrameBatch> {
+    let info = self.0.get_peer_info_for_identity(&Blob::from(identity.to_vec())).await?;
+    Some(info.strategy.prepare_wire_frames(Msg::from_vec(identity.to_vec()), payload, &latch.0))
+  }
+  /// Snapshot of both maps: (identity -> uri) sorted, (pipe -> identity) sorted.
+  pub fn snapshot(&self) -> (Vec<(Vec<u8>, String)>, Vec<(usize, Vec<u8>)>) {
+    let mut a: Vec<(Vec<u8>, String)> = self
+      .0
+      .identity_to_peer_info
+      .read()
+      .iter()
+      .map(|(k, v)| (k.as_ref().to_vec(), v.uri.clone()))
+      .collect();
+    a.sort();
+    let mut b: Vec<(usize, Vec<u8>)> = self
+      .0
+      .read_pipe_to_identity
+      .read()
+      .iter()
+      .map(|(k, v)| (*k, v.as_ref().to_vec()))
+      .collect();
+    b.sort();
+    (a, b)
+  }
+}
+
+pub struct FramingLatchH(FramingLatch);
+
+impl FramingLatchH {
+  pub fn router() -> Self {
+    Self(FramingLatch::new(
+      crate::socket::patterns::router_auto_encode,
+      crate::socket::patterns::router_auto_decode,
+    ))
+  }
+  pub fn dealer() -> Self {
+    Self(FramingLatch::new(
+      crate::socket::patterns::dealer_auto_encode,
+      crate::socket::patterns::dealer_auto_decode,
+    ))
+  }
+  pub fn encode(&self, frames: &mut FrameBatch) {
+    self.0.encode(frames)
+  }
+  pub fn decode(&self, frames: &mut FrameBatch) {
+    self.0.decode(frames)
+  }
+  pub fn set_manual(&self) -> bool {
+    self.0.set_manual()
+  }
+  pub fn is_manual(&self) -> bool {
+    self.0.is_manual()
+  }
+}
+
+pub struct PipeCoordinatorH(WritePipeCoordinator);
+pub struct SendPermit(#[allow(dead_code)] tokio::sync::OwnedSemaphorePermit);
+
+impl PipeCoordinatorH {
+  pub fn new() -> Self {
+    Self(WritePipeCoordinator::new())
+  }
+  pub async fn add_pipe(&self, id: usize) {
+    self.0.add_pipe(id).await
+  }
+  pub async fn remove_pipe(&self, id: usize) -> bool {
+    self.0.remove_pipe(id).await.is_some()
+  }
+  pub async fn acquire(&self, id: usize, timeout: Option<Duration>) -> Result<SendPermit, ZmqError> {
+    self.0.acquire_send_permit(id, timeout).await.map(SendPermit)
+  }
+}
